@@ -139,14 +139,16 @@ def run(a, res):
         status = r.choice(STATUSES)
         n = pick_len(r)
         if u.get("fill"):       # ballast that pushes older entries out of the small caches
-            status, n = 200, r.randrange(120000, 300000)
+            status, n = 200, (u["fill"] if u["fill"] is not True else r.randrange(120000, 300000))
         framing = r.choice(["cl", "cl", "cl", "chunked", "chunked", "close"])
+        if u.get("force"):      # splice phase: a multi-slot 200 object
+            status, n, framing = 200, u["force"], "cl"
         resp = Resp(status, None, length=n, framing=framing, chunks=[r.choice([1, 100, 4096, 5000, 65536]) for _ in range(4)])
         resp.headers = [("Content-Type", "application/octet-stream"), ("Cache-Control", "max-age=3600"),
                         ("ETag", '"%s-%d"' % (resp.rid, n)), ("X-Verif-Mark", "%s.%d.%d" % (resp.rid, n, status))]
         if status == 301:
             resp.headers.append(("Location", "http://127.0.0.1:1/moved/" + resp.rid))
-        slow = r.random() < c["slow_p"] and not u.get("fill")
+        slow = r.random() < c["slow_p"] and not u.get("fill") and not u.get("force")
         if slow:
             wire = resp.serialize()
             hl = wire.find(b"\r\n\r\n") + 4
@@ -196,6 +198,8 @@ def run(a, res):
         tdone = getattr(v["req"], "t_resp_done", None)
         inflight = hit and (tdone is None or tdone > t_send)
         res.count(cls)
+        if kind.startswith("splice-re"):
+            res.count(f"{kind}:{cls}:{inst}")
         if hit:
             res.count("hits:" + inst)
         if inflight:
@@ -317,6 +321,58 @@ def run(a, res):
                 if lo is not None and len(org.seen(req_id)) > 0:
                     res.count("sweep_miss_after_%s:%s" % ("purge" if lo[1] == "purge" else "store", inst))
 
+    def splice_phase(seed, sq, inst):
+        """slot-based stores (rock, shared memory): multi-slot objects whose stored headers are rewritten after header-changing
+        304s (the new header slots are spliced onto the old body slots and the stale prefix is freed), then fresh objects that
+        take whatever slots were freed, then -- after enough ballast to push the memory copies out -- the objects again."""
+        r = random.Random(f"C10:{seed}:splice:{inst}")
+        c = {"seed": seed, "n": -1, "oseed": r.randrange(1 << 30), "slow_p": 0}
+        seq = [0]
+
+        def get(path, kind, hs=()):
+            seq[0] += 1
+            req_id = f"{seed}.sp.{inst}.{seq[0]}"
+            try:
+                conn = Conn(sq.port, timeout=40)
+            except OSError:
+                res.count("connect_failed")
+                return
+            t_send = base.tick()
+            conn.send(request_bytes("GET", f"http://127.0.0.1:{org.port}{path}", [("Connection", "close")] + list(hs), None, req_id=req_id))
+            m = conn.read_response("GET", timeout=40)
+            conn.close()
+            res.count("requests")
+            judge(c, inst, kind, path, req_id, t_send, m)
+
+        paths = []
+        for j in range(16):
+            path = f"/c10/{seed}/sp/{inst}/s{j}"
+            n = r.choice([9000, 13000, 20000, 33000, 40000, 70000, 100000, 140000]) + r.randrange(0, 3000)
+            table[path] = {"case": c, "idx": 5000 + j, "nver": 0, "force": n}
+            paths.append(path)
+            get(path, "splice-store")
+        nf = 0
+        for rnd in range(2):
+            for path in paths:
+                if not sq.alive():
+                    return
+                get(path, "splice-reval", [("Cache-Control", "max-age=0")])
+                for _ in range(2):
+                    nf += 1
+                    fp = f"/c10/{seed}/sp/{inst}/f{nf}"
+                    table[fp] = {"case": c, "idx": 6000 + nf, "nver": 0, "fill": r.randrange(5000, 60000)}
+                    get(fp, "splice-fill")
+        for path in paths[::2]:
+            get(path, "splice-read")
+        for _ in range(26):     # ballast small enough to be memory-cached itself (about 1.2 MB): pushes the local memory copies out
+            nf += 1
+            fp = f"/c10/{seed}/sp/{inst}/f{nf}"
+            table[fp] = {"case": c, "idx": 6000 + nf, "nver": 0, "fill": r.randrange(30000, 60000)}
+            get(fp, "splice-fill")
+        for path in paths:
+            get(path, "splice-read")
+        res.count("splice_phases")
+
     def run_instance(name, cases):
         conf, cds, smp = INSTANCES[name]
         var = inst_variant(cases[0]["seed"], name)
@@ -331,6 +387,8 @@ def run(a, res):
             with ThreadPoolExecutor(2) as ex:
                 list(ex.map(lambda c: one(c, sq), cases))
             time.sleep(0.3)
+            if name in ("rock", "smp") and not (a.replay_data and "case" in a.replay_data):
+                splice_phase(cases[0]["seed"], sq, name)
             sweep(cases, sq, name)
             health_events(sq, res, judge=True, witness=wit)
             if not sq.alive():
